@@ -628,6 +628,22 @@ fn compile_run_k(_case: &Value, inputs: &Value) -> Value {
     json!({"compiled": tree_to_json(&a, prog), "result": result})
 }
 
+// the unused-argument check through its public entry point
+fn check_unused_k(_case: &Value, inputs: &Value) -> Value {
+    use chialisp::classic::clvm_tools::debug::check_unused;
+    use chialisp::compiler::compiler::DefaultCompilerOpts;
+    use chialisp::compiler::comptypes::CompilerOpts;
+    let opts: Rc<dyn CompilerOpts> = Rc::new(DefaultCompilerOpts::new("*t*"));
+    match check_unused(opts, inputs["source"].as_str().unwrap()) {
+        Ok((ok, text)) => {
+            let mut names: Vec<String> = text.lines().filter(|l| l.starts_with(" - ")).map(|l| l[3..].to_string()).collect();
+            names.sort();
+            json!({"ok": ok, "unused": names, "text": text})
+        }
+        Err(e) => json!({"err": e.1}),
+    }
+}
+
 // the library entry point (dialect detection included), then the emitted program run by clvmr on the given arguments
 fn compile_text_k(_case: &Value, inputs: &Value) -> Value {
     use chialisp::classic::clvm_tools::clvmc::compile_clvm_text_maybe_opt;
@@ -647,6 +663,52 @@ fn compile_text_k(_case: &Value, inputs: &Value) -> Value {
     let compiled = tree_to_json(&a, prog);
     let mut symv: Vec<(String, String)> = syms.into_iter().collect();
     symv.sort();
+    if let Some(fname) = inputs.get("fn").and_then(|v| v.as_str()) {
+        // C13: extract the function named by a symbol-table entry from the emitted program and run it
+        use chialisp::classic::clvm_tools::sha256tree::sha256tree;
+        fn find(a: &mut Allocator, n: NodePtr, want: &str) -> Option<NodePtr> {
+            if sha256tree(a, n).hex() == want { return Some(n); }
+            if let SExp::Pair(l, r) = a.sexp(n) {
+                if let Some(x) = find(a, l, want) { return Some(x); }
+                return find(a, r, want);
+            }
+            None
+        }
+        let mut found = None;
+        for (k, v) in symv.iter() {
+            if v == fname && k.len() == 64 {
+                if let Some(code) = find(&mut a, prog, k) { found = Some((k.clone(), code)); break; }
+            }
+        }
+        let (key, code) = match found {
+            Some(x) => x,
+            None => return json!({"compiled": compiled, "symbols": symv, "fn_entry": false}),
+        };
+        let args_text = symv.iter().find(|(k, _)| *k == format!("{key}_arguments")).map(|(_, v)| v.clone());
+        let args_ok = match inputs.get("fn_args_text").and_then(|v| v.as_str()) { Some(t) => json!(args_text.as_deref() == Some(t)), None => Value::Null };
+        // (a (q . MAIN) (c (q . ENV) 1))
+        let left = (|| {
+            let r1 = match a.sexp(prog) { SExp::Pair(_, r) => r, _ => return None };
+            let r2 = match a.sexp(r1) { SExp::Pair(_, r) => r, _ => return None };
+            let c = match a.sexp(r2) { SExp::Pair(l, _) => l, _ => return None };
+            let c1 = match a.sexp(c) { SExp::Pair(_, r) => r, _ => return None };
+            let q = match a.sexp(c1) { SExp::Pair(l, _) => l, _ => return None };
+            match a.sexp(q) { SExp::Pair(_, r) => Some(r), _ => None }
+        })();
+        let left = match left { Some(l) => l, None => return json!({"compiled": compiled, "symbols": symv, "fn_entry": true, "shape": false}) };
+        let fargs = json_to_tree(&mut a, &inputs["fn_args"]);
+        let env = a.new_pair(left, fargs).unwrap();
+        let runner = DefaultProgramRunner::new();
+        let result = match runner.run_program(&mut a, code, env, None) {
+            Ok(r) => json!({"ok": tree_to_json(&a, r.1)}),
+            Err(_) => json!({"err": true}),
+        };
+        let matches = match inputs.get("expect") {
+            Some(e) if !e.is_null() => json!(result.get("ok") == Some(e)),
+            _ => Value::Null,
+        };
+        return json!({"compiled": compiled, "symbols": symv, "fn_entry": true, "fn_args_ok": args_ok, "fn_result": result, "fn_matches_expect": matches});
+    }
     if inputs.get("args").is_none() || inputs["args"].is_null() {
         return json!({"compiled": compiled, "symbols": symv});
     }
@@ -661,6 +723,18 @@ fn compile_text_k(_case: &Value, inputs: &Value) -> Value {
         _ => Value::Null,
     };
     let mut out = json!({"compiled": compiled, "symbols": symv, "result": result, "matches_expect": matches});
+    if let Some(args_b) = inputs.get("args_b") {
+        // C17: the same program on a second argument value; is the parameter reported unused by the tool?
+        let ab = json_to_tree(&mut a, args_b);
+        out["result_args_b"] = match runner.run_program(&mut a, prog, ab, None) {
+            Ok(r) => json!({"ok": tree_to_json(&a, r.1)}),
+            Err(_) => json!({"err": true}),
+        };
+        if let Some(p) = inputs.get("param").and_then(|v| v.as_str()) {
+            let rep = check_unused_k(_case, inputs);
+            out["param_reported_unused"] = json!(rep["unused"].as_array().map(|v| v.iter().any(|x| x.as_str() == Some(p))).unwrap_or(false));
+        }
+    }
     if let Some(src_b) = inputs.get("source_b").and_then(|v| v.as_str()) {
         // a second build of the same program (other dialect sigil / optimise flag) on the same arguments
         let mut b = inputs.clone();
@@ -838,6 +912,7 @@ pub fn dispatch(kernel: &str, case: &Value, inputs: &Value) -> Value {
         "name_lookup" => compile_run_k(case, inputs),
         "compile_run" => compile_run_k(case, inputs),
         "compile_text" => compile_text_k(case, inputs),
+        "check_unused" => check_unused_k(case, inputs),
         "read_new_file" => read_new_file_k(case, inputs),
         "atomic_write" => atomic_write_k(case, inputs),
         "intmode" => intmode_k(case, inputs),
